@@ -1,6 +1,8 @@
 (** C09 - connect / stream / disconnect behave as a clean, repeatable life cycle. *)
 From Coq Require Import List ZArith Bool.
 From NX Require Import Handshake Handshake_proofs Pinned_comm Pinned_nxscope Pinned_thread.
+From Coq Require String.
+From NX Require PyLite Src_all Src_handshake_base Src_handshake_devinfo Src_handshake_proofs.
 Import ListNotations.
 
 (** every finite sequence of public calls keeps the state-machine invariant *)
@@ -27,6 +29,22 @@ Theorem C09_after_disconnect : forall ks a b,
   (connected_f (nx_run (nx0 a b) ks) = true -> dev_streaming s = false /\ dev_enabled s = false).
 Proof. exact after_disconnect. Qed.
 
+(** ** "every reconnect reports the same static description": on the source the description read at a
+    connect is a FUNCTION of what the device answers - the interpreted CommHandler._devinfo_get (frame
+    queues scripted: any frames, any time-outs) equals the total function [devinfo_m] of the script; in
+    particular stale frames of an earlier exchange are drained ([_drop_all]) before the channel-info
+    requests, whatever the padding does (proofs/Src_handshake_*.v). *)
+Section OnSource.
+Import String PyLite Src_all Src_handshake_base Src_handshake_devinfo Src_handshake_proofs.
+Open Scope string_scope.
+Open Scope nat_scope.
+Theorem C09_description_src : forall n w p d q qs,
+  264 <= n ->
+  call_method program n (hcomm w p d q qs) "_devinfo_get" [] = emb_dev_top (devinfo_m w p d q qs).
+Proof. exact devinfo_get_spec_const. Qed.
+End OnSource.
+
 Print Assumptions C09_invariant.
 Print Assumptions C09_disconnected_inert.
 Print Assumptions C09_after_disconnect.
+Print Assumptions C09_description_src.
